@@ -235,7 +235,7 @@ impl DbRow for data::Proc {
             mid: row.get_unwrap("mid"),
             name: row.get_unwrap("name"),
             model: row.get_unwrap("model"),
-            env: row.get_unwrap("name"),
+            env: row.get_unwrap("env"),
             err: row.get_unwrap("err"),
             start_time: row.get_unwrap("start_time"),
             end_time: row.get_unwrap("end_time"),
